@@ -624,3 +624,84 @@ Proof.
   - split; [|lia]. destruct (spec_below (hi + 1 - lo) s) as [[c r']| |] eqn:Bq; cbn [bind]; try discriminate.
     intros X; inversion X; subst. apply spec_below_panic in Bq. lia.
 Qed.
+
+(** ** fuel: [OutOfFuel] only means that the scripted stream ended *)
+Lemma spec_gen_biguint_shorter n s c r : 1 <= nwords n -> spec_gen_biguint n s = Ret (c, r) ->
+  (length r < length s)%nat.
+Proof.
+  intros Hk. unfold spec_gen_biguint.
+  destruct (take_words (Z.to_nat (nwords n)) s) as [[ws r']| |] eqn:T; cbn [bind]; try discriminate.
+  intros X; inversion X; subst. destruct (take_words_ret _ _ _ _ T) as (_ & _ & Hl). lia.
+Qed.
+
+Theorem spec_below_loop_fuel bits bound : 1 <= nwords bits -> forall f1 f2 s,
+  (length s < f1)%nat -> (length s < f2)%nat ->
+  spec_below_loop f1 bits bound s = spec_below_loop f2 bits bound s.
+Proof.
+  intros Hk. induction f1 as [|f1 IH]; intros f2 s H1 H2; [lia|]. destruct f2 as [|f2]; [lia|].
+  cbn [spec_below_loop].
+  destruct (spec_gen_biguint bits s) as [[c r]| |] eqn:G; cbn [bind]; try reflexivity.
+  pose proof (spec_gen_biguint_shorter _ _ _ _ Hk G).
+  destruct (c <? bound); [reflexivity|]. apply IH; lia.
+Qed.
+
+Theorem spec_gen_bigint_loop_fuel n : forall f1 f2 s,
+  (length s < f1)%nat -> (length s < f2)%nat ->
+  spec_gen_bigint_loop f1 n s = spec_gen_bigint_loop f2 n s.
+Proof.
+  induction f1 as [|f1 IH]; intros f2 s H1 H2; [lia|]. destruct f2 as [|f2]; [lia|].
+  cbn [spec_gen_bigint_loop].
+  destruct (spec_gen_biguint n s) as [[c r]| |] eqn:G; cbn [bind]; try reflexivity.
+  assert (length r <= length s)%nat.
+  { unfold spec_gen_biguint in G.
+    destruct (take_words (Z.to_nat (nwords n)) s) as [[ws r']| |] eqn:T; cbn [bind] in G; try discriminate.
+    inversion G; subst. destruct (take_words_ret _ _ _ _ T) as (_ & _ & Hl). lia. }
+  destruct r as [|w r2]; [reflexivity|]. cbn [spec_bool bind].
+  destruct (c =? 0); [|reflexivity]. destruct (Z.testbit w 31); [|reflexivity].
+  apply IH; cbn [length] in *; lia.
+Qed.
+
+(** [OutOfFuel] from bounded sampling means the stream holds no first acceptable candidate. *)
+Theorem spec_below_out_of_fuel bound s : 0 < bound -> spec_below bound s = OutOfFuel ->
+  let bits := Z.log2 bound + 1 in
+  ~ exists rej acc rest, s = concat rej ++ acc ++ rest /\
+      Forall (fun c => chunk_ok bits c /\ bound <= cand bits c) rej /\
+      chunk_ok bits acc /\ cand bits acc < bound.
+Proof.
+  intros Hb E bits (rej & acc & rest & -> & Hrej & Hacc & Hlt).
+  rewrite spec_below_first in E by auto. discriminate.
+Qed.
+
+(** ** gen_bigint: the first magnitude/sign pair that is not a re-drawn zero *)
+Definition redraw (n : Z) (cw : list Z) : Prop :=
+  exists c b, cw = c ++ [b] /\ chunk_ok n c /\ cand n c = 0 /\ Z.testbit b 31 = true.
+
+Theorem spec_gen_bigint_loop_first n red : forall f acc w rest, 0 <= n ->
+  Forall (redraw n) red -> chunk_ok n acc ->
+  (cand n acc <> 0 \/ Z.testbit w 31 = false) -> (length red < f)%nat ->
+  spec_gen_bigint_loop f n (concat red ++ acc ++ w :: rest)
+  = Ret (if Z.testbit w 31 then cand n acc else - cand n acc, rest).
+Proof.
+  induction red as [|cw red IH]; intros f acc w rest Hn Hred Hacc Hok Hf;
+    (destruct f as [|f]; [cbn [length] in Hf; lia|]); cbn [spec_gen_bigint_loop concat].
+  - cbn [app]. rewrite spec_gen_biguint_app by auto. cbn [bind spec_bool].
+    destruct (Z.eqb_spec (cand n acc) 0) as [E|E].
+    + destruct Hok as [Hok|Hok]; [contradiction|]. rewrite Hok, E. reflexivity.
+    + reflexivity.
+  - inversion Hred as [|? ? (c & b & -> & Hc & Hz & Hb) Hred']; subst.
+    rewrite <- !app_assoc. rewrite spec_gen_biguint_app by auto. cbn [bind app spec_bool].
+    rewrite Hz, Hb. cbn [Z.eqb]. apply IH; auto. cbn [length] in Hf. lia.
+Qed.
+
+Theorem spec_gen_bigint_first n red acc w rest : 0 <= n ->
+  Forall (redraw n) red -> chunk_ok n acc ->
+  (cand n acc <> 0 \/ Z.testbit w 31 = false) ->
+  spec_gen_bigint n (concat red ++ acc ++ w :: rest)
+  = Ret (if Z.testbit w 31 then cand n acc else - cand n acc, rest).
+Proof.
+  intros Hn Hred Hacc Hok. unfold spec_gen_bigint. apply spec_gen_bigint_loop_first; auto.
+  assert (length red <= length (concat red))%nat.
+  { clear -Hred. induction Hred as [|cw red (c & b & -> & _) _ IH]; [cbn; lia|].
+    cbn [concat length]. rewrite !app_length. cbn [length]. lia. }
+  rewrite app_length. lia.
+Qed.
